@@ -79,6 +79,9 @@ class Cell(NullCell):
         the level-0 hash and depth of each of its children (as DataCell::create in the reference implementation checks).
         """
         bits_len, refs_num = len(self.bits), len(self.refs)
+        if bits_len < 8 or self.bits[:8].tobytes()[0] != self.type_:
+            # the serialised form keeps the type of an exotic cell only in its first data byte
+            raise CellError(f'The first data byte of an exotic cell must be its type ({self.type_})')
         if self.type_ == CellTypes.pruned_branch:
             mask = self.level_mask.mask
             if not 1 <= mask <= 7 or bits_len != 16 + bin(mask).count('1') * (256 + 16):
